@@ -135,6 +135,16 @@ CHECKS["C07"] = ("StaticFiles.tla",
     "Trusted: TLC, servers.py, the audit hook (open / os.open events). POSIX only; no symlinks inside the tree.",
     "DESIGN.md 5 C07")
 
+CHECKS["C14"] = ("Conditional.tla",
+    "TLC exhaustive model check of file modifications and conditional requests on a virtual sub-second clock (NoStale, "
+    "FreshAfterChange, EtagRevalidates, StarMatches, DateRevalidates over all histories); every edge replayed by DFS on the real "
+    "Files/Pages apps with os.stat virtualised inside baize.staticfiles",
+    "All histories of up to 5 (thorough 6) actions over {tick, rewrite same size, rewrite other size, touch, plain request, "
+    "conditional request with validators of response j in 10 syntactic forms}; status, body, ETag and Last-Modified of every "
+    "response compared.",
+    "Trusted: TLC, the os.stat proxy. A date-only request is not required to detect a change within the same second.",
+    "DESIGN.md 5 C14")
+
 NOT_YET = {}
 
 ALL = ["C%02d" % i for i in range(1, 21)]
